@@ -14,8 +14,12 @@ type E1 int64
 type E2 int64
 type E3 int64
 
+// EInt is an enum declared on Go int (64-bit here): annotated with its own name it
+// is a Thrift enum just like the int64-based ones.
+type EInt int
+
 var Enums = []reflect.Type{
-	reflect.TypeOf(E0(0)), reflect.TypeOf(E1(0)), reflect.TypeOf(E2(0)), reflect.TypeOf(E3(0)),
+	reflect.TypeOf(E0(0)), reflect.TypeOf(E1(0)), reflect.TypeOf(E2(0)), reflect.TypeOf(E3(0)), reflect.TypeOf(EInt(0)),
 }
 
 // ---- small leaf structs
@@ -206,6 +210,37 @@ func (p *Defs2) InitDefault() {
 	p.Cnt = -5
 }
 
+// Defs3 declares defaults only on containers, non-optional fields and optional
+// pointers: it has no optional by-value scalar at all.
+type Defs3 struct {
+	L  []int32          `frugal:"1,optional,list<i32>"`
+	M  map[string]int16 `frugal:"2,optional,map<string:i16>"`
+	R  int32            `frugal:"3,default,i32"`
+	RS string           `frugal:"4,default,string"`
+	Q  int64            `frugal:"5,required,i64"`
+	P  *string          `frugal:"6,optional,string"`
+	St []string         `frugal:"7,optional,set<string>"`
+}
+
+func (p *Defs3) InitDefault() {
+	p.L = []int32{4, 5}
+	p.M = map[string]int16{"k": 1}
+	p.R = 9
+	p.RS = "rs"
+	p.Q = 77
+	s := "ptr-default"
+	p.P = &s
+	p.St = []string{"a"}
+}
+
+// ReqNode is recursive through a required list and carries a required field
+// after its recursive fields.
+type ReqNode struct {
+	Next *ReqNode   `frugal:"1,optional,ReqNode"`
+	Kids []*ReqNode `frugal:"2,required,list<ReqNode>"`
+	V    int32      `frugal:"3,required,i32"`
+}
+
 // NoDefs has the same optional fields as Defs but no initialiser (control).
 type NoDefs struct {
 	B   bool    `frugal:"1,optional,bool"`
@@ -350,7 +385,7 @@ type CycR struct {
 var Valid = []interface{}{
 	&Leaf{}, &LeafReq{}, &Wide{}, &Node{}, &NodeU{}, &NodeOld{}, &MutA{}, &MutB{}, &MutC{},
 	&Defs{}, &Defs2{}, &NoDefs{}, &WithUnknown{}, &UnknownNest{}, &Inner{}, &Spelling{},
-	&ThriftOnly{}, &BothTags{}, &Ignoring{},
+	&ThriftOnly{}, &BothTags{}, &Ignoring{}, &Defs3{}, &ReqNode{}, &Ring1{}, &Tree{}, &PV{},
 }
 
 // Nestable lists static struct types that dynamic types may nest freely (no
@@ -358,5 +393,5 @@ var Valid = []interface{}{
 // guaranteed here; generators check).
 var Nestable = []interface{}{
 	&Leaf{}, &LeafReq{}, &Wide{}, &Node{}, &MutA{}, &Defs{}, &Defs2{}, &NoDefs{},
-	&WithUnknown{}, &UnknownNest{}, &Spelling{}, &ThriftOnly{}, &Ignoring{},
+	&WithUnknown{}, &UnknownNest{}, &Spelling{}, &ThriftOnly{}, &Ignoring{}, &Defs3{},
 }
